@@ -439,6 +439,12 @@ class Queue(Greenlet):
                 permfails.append((rcpt, rcpt_res.reply))
             elif isinstance(rcpt_res, TransientRelayError):
                 tempfails.append((rcpt, rcpt_res.reply))
+        # A recipient the result says nothing about (no key for it, or a
+        # sequence shorter than the recipient list) is still outstanding.
+        for rcpt in envelope.recipients:
+            if rcpt not in results and rcpt not in [r for r, _ in tempfails]:
+                reply = Reply('450', '4.0.0 No delivery result for recipient')
+                tempfails.append((rcpt, reply))
         if permfails:
             rcpts, replies = zip(*permfails)
             fail_env = envelope.copy(rcpts)
